@@ -8,7 +8,7 @@ ROOT = os.path.dirname(os.path.dirname(os.path.abspath(__file__)))
 CHECKS = {
  "C09": ("fault_enumeration",
          "runtime monitor: offline checker over the event log of a probe child maker (exactly-once serials, old-population address/fingerprint, live random words, snapshot equality on failure) under native stress with injected delays and fault enumeration over call indices; Miri (tree borrows, many seeds) on every run and ThreadSanitizer in the thorough tier for the unsafe lifetime extension and the rayon hand-off",
-         "Sizes {0,1,2,3,5,8,17,64,257,1000} x serial_next / par_next on rayon pools of 1,2,3,4,8,16 x delay {none, yield, spin, sleep} x failure injected at every call index (sizes <= 17; sampled positions and multi-failure sets beyond) x Vec / VecDeque / set-like (BTreeSet of keyed children that collapse) populations over 2-3 consecutive generations (1.8e3 configurations, x6 repetitions thorough); the evidence reports distinct interleaving signatures, overlap per pool size and is inconclusive for the schedule dimension if no two calls ever overlapped. Miri: 8 seeds of a 14-configuration workload (quick) / 32 seeds of a 96-configuration workload (thorough); TSan: 480 configurations (thorough).",
+         "Sizes {0,1,2,3,5,8,17,64,257,1000} x serial_next / par_next on rayon pools of 1,2,3,4,8,16 x delay {none, yield, spin, sleep} x failure injected at every call index (sizes <= 17; sampled positions and multi-failure sets beyond) x Vec / VecDeque / set-like (BTreeSet of keyed children that collapse) populations over 2-3 consecutive generations (a panicking step is a violation) (1.8e3 configurations, x6 repetitions thorough); the evidence reports distinct interleaving signatures, overlap per pool size and is inconclusive for the schedule dimension if no two calls ever overlapped. Miri: 8 seeds of a 14-configuration workload (quick) / 32 seeds of a 96-configuration workload (thorough); TSan: 480 configurations (thorough).",
          "Schedules are sampled (stress, pool sizes, delays, Miri seeds, TSan), not enumerated. Stacked Borrows is not used (known crossbeam-epoch false positive); Tree Borrows is.",
          "DESIGN.md §4 C09, §5"),
  "C15": ("exploration",
@@ -23,7 +23,7 @@ CHECKS = {
          "DESIGN.md §4 C16"),
  "C17": ("exploration",
          "runtime monitor: concrete-vs-erased differential over all 28 generated pointer flavours of the five erasable traits, with the default boxed error type and the identity error conversion; preceded by rustc's accept/reject verdict on a generated probe crate with one function per (trait x pointer x auto-trait) flavour",
-         "rustc must accept all 140 generated functions that require a flavour to implement the wrapped trait (a rejected one is C17/flavour-not-supported). Every round makes 280 erased calls (5 traits x 28 flavours x 2 error conversions) around run-time chosen real implementations and succeeding/failing probes and compares value (selectors: element identity), error Display text and source chain, random-stream fingerprint and wrapped-call count with the concrete call; 4e4 (quick) / 1e6 (thorough) rounds. The (trait x flavour) grid is exhaustive in every round.",
+         "a DynWeighted list with a single erased member must behave like the member where the outcome is stream-independent; rustc must accept all 140 generated functions that require a flavour to implement the wrapped trait (a rejected one is C17/flavour-not-supported). Every round makes 280 erased calls (5 traits x 28 flavours x 2 error conversions) around run-time chosen real implementations and succeeding/failing probes and compares value (selectors: element identity), error Display text and source chain, random-stream fingerprint and wrapped-call count with the concrete call; 4e4 (quick) / 1e6 (thorough) rounds. The (trait x flavour) grid is exhaustive in every round.",
          "Values are compared through Debug renderings. The flavour-existence half is decided by observing the compiler (as the C19 compile-time clause).",
          "DESIGN.md §4 C17"),
  "C18": ("exploration",
@@ -33,7 +33,7 @@ CHECKS = {
          "DESIGN.md §4 C18"),
  "C06": ("exploration",
          "runtime monitor: identity invariant (ptr::eq against the population's own elements) + documented-error table per configuration + panic capture, through every access path (direct, &S, Select operator, &dyn, Box<dyn>) and 13 weighted nestings with run-time chosen members",
-         "2e5 (quick) / 3e6 (thorough) random populations of size 0..9 (empty, singleton, all-equal, duplicate-laden, uneven result counts) x Best, Worst, Random, Tournament(k=1..n+2), Lexicase(cases 0..m+2, both polarities) x five access paths, every 40th round a large population (10..4099 members, tournament sizes around 8/16/32/64, sqrt(n), n/2, n-1, n, n+1, up to 34 cases), plus six random weighted combinations per population with weights incl. 0: Ok must be that very element, Err must be the documented error for that configuration (and must occur where documented), exactly one positive-weight member is used per selection.",
+         "2e5 (quick) / 3e6 (thorough) random populations of size 0..9 (empty, singleton, all-equal, duplicate-laden, uneven result counts) x Best, Worst, Random, Tournament(k=1..n+2), Lexicase(cases 0..m+2, both polarities) x five access paths, every 4th round the same contract on VecDeque / LinkedList / BTreeSet / Box<[T]> / [T; N] populations, every 16th dynamic lists with usize weights whose total exceeds usize::MAX, every 40th round a large population (10..4099 members, tournament sizes around 8/16/32/64, sqrt(n), n/2, n-1, n, n+1, up to 34 cases), plus six random weighted combinations per population with weights incl. 0: Ok must be that very element, Err must be the documented error for that configuration (and must occur where documented), exactly one positive-weight member is used per selection.",
          "Documented errors are recognised by their type names in the Debug rendering of nested error types.",
          "DESIGN.md §4 C06"),
  "C07": ("exploration",
@@ -49,31 +49,31 @@ CHECKS = {
  "C10": ("exploration",
          "runtime monitor: tagged / complementary parents make the origin of every child gene readable; segment and mask coverage; exhaustive argument sweep of the exchange primitives with panic capture",
          "TwoPointXo/UniformXo x four genome flavours x lengths {0..9,15..17,31..33,63..65,127..129,257,1000}, 5e5 (quick) / 1e7 (thorough) draws each (scaled down with the length): length, position-wise origin, one contiguous segment, every segment incl. both ends occurs (len<=6), the classes left-end / right-end / whole / inside occur on longer genomes when >= 600 such draws are expected, every uniform mask occurs; all ordered pairs of different lengths on all eight flavours must give DifferentGenomeLength(l1,l2); crossover_gene/crossover_segment for every index/range on genomes of length 0..4 (equal and different lengths): exact swap or error, never a panic, nothing else touched.",
-         "Reversed and empty out-of-bounds ranges are exercised but not judged; the empty exchange is recorded, not demanded.",
+         "Reversed and empty out-of-bounds ranges are exercised but not judged; the empty exchange is recorded, not demanded; empty ranges beyond the end of a genome must be errors.",
          "DESIGN.md §4 C10"),
  "C11": ("exploration",
          "runtime monitor: structural invariants on tagged genomes (parent genes carry positions, fresh genes carry serial numbers handed out by a counting generator), exact degenerate-rate cases",
-         "2e6 (quick) / 4e7 (thorough) UMAD mutations through all three constructors on Vector<tagged gene> and Plushy (parents with up to four Close genes, every assignment tried), lengths 0..40 (every 60th genome 63..4097), rate grid incl. 0 and 1 and random rates; 5e5 / 1e7 bit-flip mutations (WithRate, WithOneOverLength) on Vec<bool>, Bitstring and a custom Not gene.",
+         "2e6 (quick) / 4e7 (thorough) UMAD mutations through all three constructors on Vector<tagged gene> and Plushy (parents with up to four Close genes, every assignment tried), lengths 0..40 (every 60th genome 63..4097; bit-flip also on 2^24+1 and 2^24+3 genes), rate grid incl. 0 and 1 and random rates; 5e5 / 1e7 bit-flip mutations (WithRate, WithOneOverLength) on Vec<bool>, Bitstring and a custom Not gene.",
          "Set membership of serial numbers decides 'drawn from the supplied generator during this call, at most once'.",
          "DESIGN.md §4 C11"),
  "C12": ("exploration",
          "runtime statistical monitor (Bernstein 1e-10 per category; p=0/p=1 exact; Hoeffding for mean child length) over 285 configurations of rates, lengths and generators",
-         "Per-gene flip frequency and adjacent-pair joint frequency for WithRate / WithOneOverLength; UMAD per-position deletion, aggregated additions a(1-d), the full joint law on one-gene parents, empty-parent additions for all three constructors, mean child length incl. d=a/(1+a); uniform crossover 1/2 and pair independence on four flavours; Bitstring::random*, BoolGenerator; GeneGenerator through all six public constructors: close frequency (explicit and default 1/(n+1), n=1..31) and instruction frequencies (uniform and skewed, direct and via a Plushy collection generator); lengths 100/200/1000 for bit-flip, random bitstrings and uniform crossover. 2e6 (quick) / 4e7 (thorough) samples per configuration before length scaling.",
+         "Per-gene flip frequency and adjacent-pair joint frequency for WithRate / WithOneOverLength; UMAD per-position deletion, aggregated additions a(1-d), the full joint law on one-gene parents, empty-parent additions for all three constructors, mean child length incl. d=a/(1+a); uniform crossover 1/2 and pair independence on four flavours; Bitstring::random*, BoolGenerator; GeneGenerator through all six public constructors: close frequency (explicit and default 1/(n+1), n=1..31) and instruction frequencies (uniform and skewed, direct and via a Plushy collection generator); lengths 100/200/1000 for bit-flip, random bitstrings and uniform crossover; the 1/length rate also on 3000..70000 genes (aggregated). 2e6 (quick) / 4e7 (thorough) samples per configuration before length scaling.",
          "A bias below the stated resolution is invisible.",
          "DESIGN.md §4 C12"),
  "C13": ("exploration",
          "runtime monitor with marker selectors: per-selection delegation log (exactly one positive-weight member, result is that member's) + Bernstein intervals on delegation frequencies w_i/sum(w) + exact construction verdicts at the 32-bit boundary",
-         "13 nestings x 27 weight multisets (zeros, all-zero, 2^31 / u32::MAX boundaries, overflowing totals, overflow early in a chain) in several permutations, 1e6 (quick) / 2e7 (thorough) selections each; 14 staged histories (select, extend with another member, select again) on DynWeighted lists and with_item_and_weight chains, each stage judged against the weights it has at that moment.",
+         "13 nestings x 32 weight multisets (incl. large unequal weights) (zeros, all-zero, 2^31 / u32::MAX boundaries, overflowing totals, overflow early in a chain) in several permutations, 1e6 (quick) / 2e7 (thorough) selections each; 14 staged histories (select, extend with another member, select again) on DynWeighted lists and with_item_and_weight chains, each stage judged against the weights it has at that moment.",
          "Members are marker selectors; DynWeighted takes usize weights so overflowing 32-bit totals are legal there.",
          "DESIGN.md §4 C13"),
  "C14": ("fault_enumeration",
-         "runtime monitor: combinator-algebra reference evaluator vs the real combinators on random composition terms; leaf probes log (id, input, random word); failure injected at every leaf call; error path read through Error::source() and Display",
+         "runtime monitor: combinator-algebra reference evaluator vs the real combinators on random composition terms; leaf probes log (id, input, random word drawn through next_u32 / next_u64 / fill_bytes in turn); failure injected at every leaf call; error path read through Error::source() and Display",
          "3e5 (quick) / 5e6 (thorough) random terms to depth 5 over then/and/map(pair|array|vec)/apply_n_times<0..3,5,8,17,33>/Identity/Constant on inputs incl. vectors of up to 100 elements, each with m <= 130 leaf calls run m+1 times (failure at each call and none): output, full call log (order, inputs, words), stream fingerprint, failing leaf and error path must match; six statically typed shapes; wrappers Select/Mutate/Recombine (by value/by reference), GenomeExtractor, GenomeScorer, Identity, Constant compared with the wrapped thing.",
          "Combinator error types are unnameable outside ec-core, so the failing part is read from the documented Display texts; an unrecognised text is inconclusive.",
          "DESIGN.md §4 C14"),
  "C05": ("exploration",
          "runtime monitor: differential against an independent iterative reference parser plus direct statement checks (depth-first flattening == genome order; k opens followed by exactly k blocks; no block elsewhere; conversion returns)",
-         "Every gene string up to length 9 (quick) / 11 (thorough) over {Close, literal(position), When, DupBlock, IfElse} is translated by the real code and compared with the reference parser and the statement's structural rules; random genomes up to length 5000 with skewed symbol mixes (all opens, all closes, trailing opens); nesting depth to 2000 on ordinary threads and 20000 on a 1 GiB thread. The check runs as a supervised child (12 GiB address space, 150 s CPU per translation): a process death or hang while a genome is being translated is a violation. Exhaustive within the small scope, sampled beyond.",
+         "Every gene string up to length 9 (quick) / 11 (thorough) over {Close, literal(position), When, DupBlock, IfElse} (built into a Plushy through every construction path, incl. iterators with astronomically large size hints) is translated by the real code and compared with the reference parser and the statement's structural rules; random genomes up to length 5000 with skewed symbol mixes (all opens, all closes, trailing opens); nesting depth to 2000 on ordinary threads and 20000 on a 1 GiB thread. The check runs as a supervised child (12 GiB address space, 150 s CPU per translation): a process death or hang while a genome is being translated is a violation. Exhaustive within the small scope, sampled beyond.",
          "Literal genes carry their position so order is unambiguous; nesting beyond 20000 is bounded by the host stack and not judged.",
          "DESIGN.md §4 C05"),
  "C19": ("exploration",
@@ -98,7 +98,7 @@ CHECKS = {
          "DESIGN.md §4 C03"),
  "C04": ("exploration",
          "runtime monitor: history + executable Vec/capacity model checked after every operation; exhaustive small-scope histories + long random histories with a drop-counting element type",
-         "Every history of stack operations up to length 5 (quick) / 6 (thorough) over a 27-operation alphabet from capacities 0..4 is executed on the real Stack and compared with a Vec+capacity model after every operation (return value, exact underflow payload, full contents, size/is_empty/is_full/max); plus random 10^4-operation histories with capacities lowered below the current size and usize::MAX (every fourth on stacks of up to 70000 elements with bulk operations of up to 3000 items; exact-size iterators that only claim up to usize::MAX items and must be refused without allocating), and a drop-counting element type for conservation. Exhaustive within the stated scope, sampled beyond it.",
+         "Every history of stack operations up to length 5 (quick) / 6 (thorough) over a 27-operation alphabet from capacities 0..4 is executed on the real Stack and compared with a Vec+capacity model after every operation (return value, exact underflow payload, full contents, size/is_empty/is_full/max; Stack == Vec / slice / array cross-checked against the contents obtained by popping a clone); plus random 10^4-operation histories with capacities lowered below the current size and usize::MAX (every fourth on stacks of up to 70000 elements with bulk operations of up to 3000 items; exact-size iterators that only claim up to usize::MAX items and must be refused without allocating), and a drop-counting element type for conservation. Exhaustive within the stated scope, sampled beyond it.",
          "Trusts the 60-line model as the reading of the statement; zero-element insertion into an over-full stack is not judged.",
          "DESIGN.md §4 C04"),
 }
